@@ -16,7 +16,6 @@ type chainDriver struct {
 	forkID  uint64
 	opts    chaingen.Opts
 	bumpDen int
-	post    func(*chaingen.Block) // feeder class: rewrites the block before anything is built on it
 }
 
 func newChainDriver(c *sim.Ctx) *chainDriver {
@@ -47,11 +46,7 @@ func (d *chainDriver) next(parent *chaingen.Block) *chaingen.Block {
 	o := d.opts
 	o.Version = chaingen.Versions[d.verIdx]
 	o.Salt = d.forkID
-	b := d.g.Next(d.c.T, parent, o)
-	if d.post != nil {
-		d.post(b)
-	}
-	return b
+	return d.g.Next(d.c.T, parent, o)
 }
 
 func (d *chainDriver) newFork() { d.forkID++ }
